@@ -70,7 +70,8 @@ struct Explorer {
     return s;
   }
 
-  void begin(const Item *it) { item = it; next_dev = 0; npoints = 0; sig = 1469598103934665603ULL; points.clear(); diverged = false; }
+  long new_outcomes = 0;   // states this execution registered as new (an execution that did so cannot simply be run again)
+  void begin(const Item *it) { item = it; new_outcomes = 0; next_dev = 0; npoints = 0; sig = 1469598103934665603ULL; points.clear(); diverged = false; }
 
   int choose(const uint8_t *kinds, int n) {
     if (n <= 1) return 0;
@@ -98,7 +99,7 @@ struct Explorer {
     for (long i = h % cap, probes = 0; probes < 64; i = (i + 1) % cap, probes++) {
       uint64_t cur = t[i].load();
       if (cur == h) return false;
-      if (cur == 0) { uint64_t exp = 0; if (t[i].compare_exchange_strong(exp, h)) { sh->noutcomes++; return true; } if (exp == h) return false; }
+      if (cur == 0) { uint64_t exp = 0; if (t[i].compare_exchange_strong(exp, h)) { sh->noutcomes++; new_outcomes++; return true; } if (exp == h) return false; }
     }
     return false;
   }
